@@ -95,7 +95,7 @@ fn grouping_sig(want: &E, got: Result<&E, &str>) -> String {
 impl Monitor for C13 {
     fn id(&self) -> &'static str { "C13" }
     fn rule(&self) -> &'static str {
-        "the harness prints its own AST with minimal parentheses under the reference grammar (cast/subscript > unary minus > * / > + - > comparisons, IS, IN > NOT > AND > OR, left associative) and requires parse() to recover exactly that AST (structural comparison of model::ExpressionTree); the fully parenthesised text must recover it too. Exhaustive: every (outer operator, inner operator, operand position) combination over 20 operator shapes, with and without a negative literal; random trees to depth 6 with functions, casts, subscripts, CASE, IN (also one-element lists) and redundant parentheses. Non-trivial = minimal text omits parentheses the full text has and the tree has >= 2 operator nodes; distinct by AST hash"
+        "the harness prints its own AST with minimal parentheses under the reference grammar (cast/subscript > unary minus > * / > + - > comparisons, IS, IN > NOT > AND > OR, left associative) and requires parse() to recover exactly that AST (structural comparison of model::ExpressionTree); the fully parenthesised text must recover it too. Exhaustive: every (outer operator, inner operator, operand position) combination over 20 operator shapes, with and without a negative literal; random trees to depth 6 with functions, casts, subscripts, CASE, IN (also one-element lists) and redundant parentheses; one case in 40 is a flat chain of 20-130 terms (IN lists, comparisons, calls; left- or right-nested: up to 130 levels of parentheses in the full text). Non-trivial = minimal text omits parentheses the full text has and the tree has >= 2 operator nodes; distinct by AST hash"
     }
     fn assumptions(&self) -> Vec<String> { vec!["reference grammar as stated in the property; IS / IN share the comparison level, binary operators associate to the left".into()] }
     fn sizes(&self, tier: Tier) -> Sizes { match tier { Tier::Quick => Sizes { cases: 40_000, min_nontrivial: 5_000 }, Tier::Thorough => Sizes { cases: 3_000_000, min_nontrivial: 200_000 } } }
